@@ -716,7 +716,7 @@ class Extractor:
             return []
         parts = d.split(".")
         if len(parts) == 1 and parts[0] in scope.fun_aliases:
-            return sorted(t for t in scope.fun_aliases[parts[0]] if t in self.seedparam or t in self.seedclass)
+            return sorted(t for t in scope.fun_aliases[parts[0]] if self.inlinable(t))
         tgt = None
         if parts[0] == "self" and scope.cls and len(parts) == 2:
             tgt = f"{rel}::{scope.cls}.{parts[1]}" if f"{rel}::{scope.cls}.{parts[1]}" in self.defs else None
@@ -725,9 +725,17 @@ class Extractor:
         if tgt is not None:
             if count:
                 self.stats["callees_resolved_by_qualified_name"] += 1
-            return [tgt] if (tgt in self.seedparam or tgt in self.seedclass) else []
-        # fallback: the bare name, only among seed-accepting definitions
+            return [tgt] if self.inlinable(tgt) else []
         last = parts[-1]
+        # fallback 1: the tenalg functions are reached through a run-time dispatcher (tensorly.tenalg.<name>): take the
+        # definition of the default (core) tenalg backend
+        core = [i for i in self.defs if i.startswith("tensorly/tenalg/core_tenalg/") and i.split("::")[1] == last
+                and isinstance(self.defs[i][1], ast.FunctionDef)]
+        if len(core) == 1 and (len(parts) > 1 or self.resolve_symbol(rel, last) is None) and last not in scope.local_names():
+            if count:
+                self.stats["callees_resolved_through_the_tenalg_dispatcher"] = self.stats.get("callees_resolved_through_the_tenalg_dispatcher", 0) + 1
+            return core
+        # fallback 2: the bare name, only among seed-accepting definitions
         cands = sorted(i for i in list(self.seedparam) + list(self.seedclass) if i.split("::")[1].split(".")[-1] == last)
         if len(parts) == 1:
             # a plain name that the module neither defines nor imports is a local variable / parameter: not a callee we know
@@ -744,6 +752,11 @@ class Extractor:
                 self.unresolved.append((scope.where, f"call {d}: several seed-accepting definitions are named {last}"))
             return cands
         return []
+
+    def inlinable(self, i):
+        """definitions whose body is transcribed at a call: every function / method of tensorly, and the classes that
+        take a random_state (their methods); other classes are not followed"""
+        return i in self.seedclass or (i in self.defs and isinstance(self.defs[i][1], ast.FunctionDef))
 
     @staticmethod
     def _explicit_seed_param(f):
@@ -766,7 +779,22 @@ class Extractor:
         try:
             rel, node, cls = self.defs[i]
             if i in self.seedclass:
-                out = seq([_Scope(self, m, "self", f"{i}.{m.name}", rel, node.name, {}).block(m.body)
+                # constants passed to the constructor and stored by __init__ as self.<attr> = <parameter> are known
+                # inside the methods (unless another method re-binds the attribute)
+                attrs = {}
+                init = [m for m in node.body if isinstance(m, ast.FunctionDef) and m.name == "__init__"][0]
+                for n in ast.walk(init):
+                    if isinstance(n, ast.Assign) and len(n.targets) == 1 and isinstance(n.targets[0], ast.Attribute) and \
+                            isinstance(n.targets[0].value, ast.Name) and n.targets[0].value.id == "self" and isinstance(n.value, ast.Name) and n.value.id in env:
+                        attrs["self." + n.targets[0].attr] = env[n.value.id]
+                for m in node.body:
+                    if isinstance(m, ast.FunctionDef) and m.name != "__init__":
+                        for n in ast.walk(m):
+                            tg = n.targets if isinstance(n, ast.Assign) else ([n.target] if isinstance(n, (ast.AugAssign, ast.AnnAssign)) else [])
+                            for t in tg:
+                                if isinstance(t, ast.Attribute) and isinstance(t.value, ast.Name) and t.value.id == "self":
+                                    attrs.pop("self." + t.attr, None)
+                out = seq([_Scope(self, m, "self", f"{i}.{m.name}", rel, node.name, attrs).block(m.body)
                            for m in node.body if isinstance(m, ast.FunctionDef) and m.name != "__init__"])
             else:
                 out = _Scope(self, node, self.seedparam.get(i), i, rel, cls, env).block(node.body)
@@ -795,14 +823,7 @@ class Extractor:
                 if isinstance(d, ast.Constant):
                     env[x.arg] = d.value
 
-        def val(e):
-            if isinstance(e, ast.Constant):
-                return True, e.value
-            if isinstance(e, (ast.Tuple, ast.List)):
-                return True, NOT_A_SCALAR          # init=(weights, factors): differs from every string / None
-            if isinstance(e, ast.Name) and e.id in caller.known:
-                return True, caller.known[e.id]
-            return False, None
+        val = caller.kval
         if not any(isinstance(x, ast.Starred) for x in c.args):
             for nm, e in zip(pos, c.args):
                 ok, v = val(e)
@@ -836,6 +857,25 @@ class _Scope:
         self.nvars = 1
         self.fun_aliases = {}   # local names assigned from functions (svd_fun = randomized_svd) -> ids, as encountered
         self.pre = []           # events produced while classifying an expression (inline check_random_state(...))
+
+    def kval(self, e):
+        """(known?, value) of an expression under the flow-sensitive constant knowledge"""
+        if isinstance(e, ast.Constant):
+            return True, e.value
+        if isinstance(e, (ast.Tuple, ast.List)):
+            return True, NOT_A_SCALAR          # init=(weights, factors): differs from every string / None
+        if isinstance(e, ast.Name) and e.id in self.known:
+            return True, self.known[e.id]
+        if isinstance(e, ast.Attribute) and isinstance(e.value, ast.Name) and e.value.id == "self" and ("self." + e.attr) in self.known:
+            return True, self.known["self." + e.attr]
+        return False, None
+
+    def local_names(self):
+        if not hasattr(self, "_locals"):
+            a = self.f.args
+            self._locals = self.assigned_in([self.f]) | {x.arg for x in a.posonlyargs + a.args + a.kwonlyargs} | \
+                {x.arg for x in (a.vararg, a.kwarg) if x is not None}
+        return self._locals
 
     def var(self, name):
         if name not in self.vars:
@@ -1040,8 +1080,8 @@ class _Scope:
         that the analysis is about random_state being an int or a generator object (never None)"""
         if isinstance(e, ast.Constant):
             return bool(e.value)
-        if isinstance(e, ast.Name) and e.id in self.known:
-            return bool(self.known[e.id])
+        if isinstance(e, (ast.Name, ast.Attribute)) and self.kval(e)[0]:
+            return bool(self.kval(e)[1])
         if isinstance(e, ast.UnaryOp) and isinstance(e.op, ast.Not):
             t = self.truth(e.operand)
             return None if t is None else (not t)
@@ -1058,13 +1098,7 @@ class _Scope:
             if arg0 and isinstance(r, ast.Constant) and r.value is None and isinstance(op, (ast.IsNot, ast.NotEq)):
                 return True
 
-            def val(x):
-                if isinstance(x, ast.Constant):
-                    return True, x.value
-                if isinstance(x, ast.Name) and x.id in self.known:
-                    return True, self.known[x.id]
-                return False, None
-            (ok1, v1), (ok2, v2) = val(l), val(r)
+            (ok1, v1), (ok2, v2) = self.kval(l), self.kval(r)
             if ok1 and ok2:
                 if isinstance(op, ast.Eq):
                     return v1 == v2
@@ -1132,12 +1166,13 @@ class _Scope:
                 if cal in self.ex.seedclass:
                     alts.append((cal, self.ex.seedclass[cal], True))
                 else:
-                    alts.append((cal, self.ex.seedparam[cal], False))
+                    alts.append((cal, self.ex.seedparam.get(cal), False))
             evs = []
             for cal, pname, is_class in alts:
                 self.pre = []
-                a = self.arg_for(c, cal, pname, is_class)
-                evs.append(seq(list(self.pre) + [call(a, self.ex.body_of(cal, {} if is_class else self.ex.call_env(cal, c, self)))]))
+                # a callee without random_state parameter: its scope has no argument variable (None stands for it)
+                a = self.arg_for(c, cal, pname, is_class) if pname is not None else "PNoneE"
+                evs.append(seq(list(self.pre) + [call(a, self.ex.body_of(cal, self.ex.call_env(cal + ".__init__" if is_class else cal, c, self)))]))
             if evs:
                 ev = evs[0]
                 for x in evs[1:]:
@@ -1196,6 +1231,47 @@ STATIC_EP = {
 # option-insensitive extracted skeleton (the traced calls show that nothing is drawn)
 STATIC_NOT_REQUIRED = {"CP_PLSR"}
 HEADER_STATIC = HEADER + "\nDefinition failing := failing_static."
+
+
+HEADER_RNGFREE = HEADER + "\nDefinition failing := failing_rngfree."
+# functions WITHOUT random choices (property statement: SVD-initialised decompositions, tensor algebra): bare name,
+# constants of the call (None = the defaults of the signature only; NOT_A_SCALAR = a user-supplied (weights, factors))
+RNGFREE = [("tensor_train", {}), ("tensor_train_matrix", {}), ("tensor_ring", {}), ("robust_pca", {}),
+           ("tucker", {}), ("partial_tucker", {}), ("non_negative_tucker", {}), ("non_negative_tucker_hals", {}),
+           ("parafac2", {"init": "svd", "svd": "truncated_svd"}), ("parafac2", {"init": "svd", "svd": "symeig_svd"}),
+           ("parafac", {"init": NOT_A_SCALAR, "svd": "truncated_svd"}), ("non_negative_parafac", {"init": NOT_A_SCALAR, "svd": "truncated_svd"}),
+           ("non_negative_parafac_hals", {"init": NOT_A_SCALAR, "svd": "truncated_svd"}), ("constrained_parafac", {"init": NOT_A_SCALAR, "svd": "truncated_svd"}),
+           ("svd_interface", {"method": "truncated_svd"}), ("svd_interface", {"method": "symeig_svd"}), ("truncated_svd", {}), ("symeig_svd", {}),
+           ("svd_flip", {}), ("make_svd_non_negative", {}),
+           ("khatri_rao", {}), ("kronecker", {}), ("mode_dot", {}), ("multi_mode_dot", {}), ("unfolding_dot_khatri_rao", {}), ("inner", {}), ("outer", {}),
+           ("batched_outer", {}), ("tensordot", {}),
+           ("cp_to_tensor", {}), ("cp_normalize", {}), ("cp_norm", {}), ("cp_mode_dot", {}), ("tucker_to_tensor", {}), ("tucker_mode_dot", {}),
+           ("tt_to_tensor", {}), ("tr_to_tensor", {}), ("parafac2_to_tensor", {}), ("unfold", {}), ("fold", {}), ("partial_unfold", {}), ("tensor_to_vec", {})]
+
+
+def rngfree_cases(ex):
+    """pskel of every function of RNGFREE found in the source (core tenalg backend, not contrib / other backends), every
+    resolvable callee inlined, the signature's constant defaults and the listed constants propagated"""
+    cases, names, missing = [], [], []
+    for name, consts in RNGFREE:
+        cands = sorted(i for i in ex.defs if i.split("::")[1] == name and isinstance(ex.defs[i][1], ast.FunctionDef)
+                       and "/einsum_tenalg/" not in i and "/contrib/" not in i and "/backend/" not in i and "/plugins/" not in i)
+        if not cands:
+            missing.append(name)
+        for i in cands:
+            a = ex.defs[i][1].args
+            env = {}
+            allpos = [x.arg for x in a.posonlyargs + a.args]
+            for nm, d in zip(allpos[len(allpos) - len(a.defaults):], a.defaults):
+                if isinstance(d, ast.Constant):
+                    env[nm] = d.value
+            for x, d in zip(a.kwonlyargs, a.kw_defaults):
+                if isinstance(d, ast.Constant):
+                    env[x.arg] = d.value
+            env.update(consts)
+            cases.append(f"({len(cases)}%nat, {coq(ex.body_of(i, env))})")
+            names.append(f"{i} {dict((k, repr(v)) for k, v in consts.items())}")
+    return cases, names, missing
 
 
 def static_cases(cfgs):
@@ -1540,7 +1616,18 @@ def run(chk):
                              {"function_or_class": snames[i], "identified_global_sources": [f"{w}: {m}" for (w, m) in ex.flags][:12],
                               "extracted_skeleton": scases[i][:1500]})
         chk.sample({"static": snames[len(snames) // 2], "extracted": scases[len(snames) // 2][:300]})
-    chk.checker_cmds.append("coqc (vm_compute) on generated build/cases/C16/*.v: Corr.C16.failing, Corr.C16.failing_static")
+        # functions without random choices: the transcribed source must not contain any draw
+        rcases, rnames, rmissing = rngfree_cases(ex)
+        rfail, rn, rbroken = C.run_case_shards("C16", HEADER_RNGFREE, "rcase", rcases, shard=100, tag="rngfree")
+        chk.cov["static_rng_free_functions_analysed"] = rn
+        chk.cov["static_rng_free_functions_not_found"] = rmissing
+        chk.count(key=("static-rngfree",), nontrivial=True, n=rn)
+        for b in rbroken:
+            chk.broken.append({"what": "correspondence corr:C16-static (rng-free) shard not evaluated", "detail": b})
+        for i in sorted(rfail):
+            chk.disagreement("corr:C16-static (a function listed as making no random choice: its transcribed source contains a draw)",
+                             {"function": rnames[i], "identified_global_sources": [f"{w}: {m}" for (w, m) in ex.flags][:12], "extracted_skeleton": rcases[i][:1500]})
+    chk.checker_cmds.append("coqc (vm_compute) on generated build/cases/C16/*.v: Corr.C16.failing, Corr.C16.failing_static, Corr.C16.failing_rngfree")
     chk.cov["traces_validated_against_impl"] = n_eval
     chk.cov["exhaustive"] = False
     chk.cov["skipped_configurations"] = nskip
